@@ -139,12 +139,15 @@ impl<'input, E> Iterator for Matcher<'input, '_, E> {
             self.text = remaining;
             self.consumed = end_offset;
 
+            // A zero-length match does not advance the input: a skip rule would spin and a
+            // terminal would be yielded again and again at the same position.
+            if longest_match == 0 {
+                return Some(Err(ParseError::InvalidToken {
+                    location: start_offset,
+                }));
+            }
+
             if self.skip_vec[index] {
-                if longest_match == 0 {
-                    return Some(Err(ParseError::InvalidToken {
-                        location: start_offset,
-                    }));
-                }
                 continue;
             }
 
